@@ -6,8 +6,9 @@ The theorems below are cited by Props/C01, C06, C07, C10 (they share one proof).
 namespace Typstyle
 open Pretty
 
-/-- (`NM ctx`: the context is not math mode — inside equations a call's arguments are laid out by other
-code, not covered yet.)  Whatever the printer returns for an expression of the fragment renders — at every width `w` and
+/-- (`NM ctx`: the context is not math mode; math mode has its own fragment `inFragM` and the theorems
+`routeM_math_expr` / `routeM_math_body` below — inside equations a call's arguments are laid out by other
+code.)  Whatever the printer returns for an expression of the fragment renders — at every width `w` and
 indent unit `u` — to a layout whose code tokens, comments, prose, literals and verbatim text are
 exactly those of the tree, in order. -/
 theorem routeM_expr (e : Env) (fuel : Nat) (ctx : Ctx) (hctx : NM ctx) (n : ANode) (hx : isExpr n = true) (hq : inFrag n = true)
@@ -45,6 +46,49 @@ theorem routeM_expr_all_layouts (e : Env) (fuel : Nat) (ctx : Ctx) (hctx : NM ct
   · show streamText .prose _ = _; rw [em .prose, hs' .prose]; rfl
   · show streamText .lit _ = _; rw [em .lit, hs' .lit]; rfl
   · show streamText .verb _ = _; rw [em .verb, hs' .verb]; rfl
+
+/-- What `Carries` means for the rendered text: at every width and indent unit, the layout the renderer
+chooses holds exactly the five streams. -/
+theorem streams_of_carries (d : Twin.Doc) (n : ANode) (hc : Carries d (specAll n)) (u w : Nat) :
+    tokText (best w 0 [⟨0, .brk, d.fam u⟩]) = (specToks n).toList ∧
+    cmtText (best w 0 [⟨0, .brk, d.fam u⟩]) = (specCmts n).toList ∧
+    proseText (best w 0 [⟨0, .brk, d.fam u⟩]) = (specProse n).toList ∧
+    litText (best w 0 [⟨0, .brk, d.fam u⟩]) = (specLit n).toList ∧
+    verbText (best w 0 [⟨0, .brk, d.fam u⟩]) = (specVerb n).toList := by
+  obtain ⟨hg, hs⟩ := hc
+  have lay := pretty_lay w (d.fam u)
+  have em := fun c => d.emits hg u c .brk _ lay
+  have hs' : ∀ c, (d.ss.get c) = (specAll n).get c := fun c => by rw [hs]
+  refine ⟨?_, ?_, ?_, ?_, ?_⟩
+  · show streamText .tok _ = _; rw [em .tok, hs' .tok]; rfl
+  · show streamText .cmt _ = _; rw [em .cmt, hs' .cmt]; rfl
+  · show streamText .prose _ = _; rw [em .prose, hs' .prose]; rfl
+  · show streamText .lit _ = _; rw [em .lit, hs' .lit]; rfl
+  · show streamText .verb _ = _; rw [em .verb, hs' .verb]; rfl
+
+/-- **Math mode.**  Whatever the printer returns, in a math-mode context, for an expression of the math
+fragment (`inFragM`: math text, identifiers, shorthands, strings, attachments, roots, fractions, primes,
+delimited groups, nested bodies, calls with their one- or two-dimensional arguments, embedded `#` code
+expressions of the code fragment) renders to a layout that holds exactly the tokens, comments, prose,
+literals and verbatim text of the tree. -/
+theorem routeM_math_expr (e : Env) (fuel : Nat) (ctx : Ctx) (hm : ctx.mode = .math) (n : ANode) (hx : isExpr n = true)
+    (hq : inFragM n = true) (d : Twin.Doc) (k k' : St) (h : ((knot e fuel).expr ctx n).run k = .ok (d, k')) (u w : Nat) :
+    tokText (best w 0 [⟨0, .brk, d.fam u⟩]) = (specToks n).toList ∧
+    cmtText (best w 0 [⟨0, .brk, d.fam u⟩]) = (specCmts n).toList ∧
+    proseText (best w 0 [⟨0, .brk, d.fam u⟩]) = (specProse n).toList ∧
+    litText (best w 0 [⟨0, .brk, d.fam u⟩]) = (specLit n).toList ∧
+    verbText (best w 0 [⟨0, .brk, d.fam u⟩]) = (specVerb n).toList :=
+  streams_of_carries d n ((knot_frag e fuel).2.expr ctx n hm hx hq k d k' h) u w
+
+/-- The same for a math body (`convert_math`). -/
+theorem routeM_math_body (e : Env) (fuel : Nat) (ctx : Ctx) (hm : ctx.mode = .math) (n : ANode) (hk : n.kind = .math)
+    (hq : inFragM n = true) (d : Twin.Doc) (k k' : St) (h : ((knot e fuel).math ctx n).run k = .ok (d, k')) (u w : Nat) :
+    tokText (best w 0 [⟨0, .brk, d.fam u⟩]) = (specToks n).toList ∧
+    cmtText (best w 0 [⟨0, .brk, d.fam u⟩]) = (specCmts n).toList ∧
+    proseText (best w 0 [⟨0, .brk, d.fam u⟩]) = (specProse n).toList ∧
+    litText (best w 0 [⟨0, .brk, d.fam u⟩]) = (specLit n).toList ∧
+    verbText (best w 0 [⟨0, .brk, d.fam u⟩]) = (specVerb n).toList :=
+  streams_of_carries d n ((knot_frag e fuel).2.math ctx n hm hk hq k d k' h) u w
 
 /-- **Whole documents.**  If the (annotated) tree of a document lies in the covered fragment, every
 certificate of the printed family holds — as a theorem, with nothing evaluated: whatever `printTwin`
